@@ -89,7 +89,7 @@ Definition missing_target_backoff : Z := sec.
 
 (** the inner loop.  [use_batch] = len(targetsByURL) == 1; [mb] = routeMutationBatch(dequeueBatch);
     [stop] = the number of items handled before the stop channel is seen closed. *)
-Fixpoint run_items (use_batch batch_store : bool) (mb : nat) (stop : nat) (its : list item) (pending : list act)
+Fixpoint run_items (use_batch batch_store : bool) (mb : nat) (stop : nat) (its : list item) (pending : list act) {struct its}
   : list scall :=
   match its with
   | [] => flush batch_store pending
@@ -113,7 +113,7 @@ Fixpoint run_items (use_batch batch_store : bool) (mb : nat) (stop : nat) (its :
 (** what the property prescribes for every leased item: a sent item gets the settlement of its
     classification, an item whose target the route does not configure is retried in a second, an item
     not reached before the stop is handed back at once *)
-Fixpoint expected (stop : nat) (its : list item) : list act :=
+Fixpoint expected (stop : nat) (its : list item) {struct its} : list act :=
   match its with
   | [] => []
   | it :: tl =>
